@@ -241,3 +241,173 @@ Example ex_topdown_witness :
     /\ in_band (aff_apply (tg_px (td_geom wit_td)) 40 - fst (ti_tl inst)) (td_osi wit_td)
                (ncells (tg_nix (td_geom wit_td)) (td_osi wit_td)).
 Proof. eexists. split; [vm_compute; reflexivity|]. split; [reflexivity|split; vm_compute; discriminate]. Qed.
+
+(* ================================================================== centroid-only top-down
+   (TopDownPredictor with the centered-instance model left out: CentroidCrop(return_crops=False)
+   + FindInstancePeaksGroundTruth; model C02/CentroidOnly.v, proofs C02/LemmasCO.v).
+   `co_frame fixed c ans` = the rows of one frame's output record: cr_cent = the "centroids"
+   entry (original pixels), cr_match = index of the labelled instance matched to it, cr_pts = the
+   "pred_instance_peaks" row. *)
+From SV Require Import C02.CentroidOnly C02.LemmasCO.
+
+(* the returned centroid: cell * stride / input_scale / eff_scale is within half a centroid-stage
+   cell (+ registration) of the animal's centroid, any configuration *)
+Theorem c02_centroid_only_centroid_bound : forall c g cent cx cy a,
+  (0 < td_osc c)%Z -> 0 < td_sc c -> 0 < tg_eff g ->
+  (0 < ncells (snd (tg_cx g)) (td_osc c))%Z -> (0 < ncells (snd (tg_cy g)) (td_osc c))%Z ->
+  td_cent_peak c g cent = Some (cx, cy, a) ->
+  in_band (aff_apply (fst (tg_cx g)) (fst cent)) (td_osc c) (ncells (snd (tg_cx g)) (td_osc c)) ->
+  in_band (aff_apply (fst (tg_cy g)) (snd cent)) (td_osc c) (ncells (snd (tg_cy g)) (td_osc c)) ->
+  Qabs (co_decode cx (td_osc c) (td_sc c) (tg_eff g) - fst cent)
+    <= half_cell (td_osc c) (td_sc c) (tg_eff g)
+       + reg_term (aff_apply (fst (tg_cx g)) (fst cent)) (fst cent) (td_sc c) (tg_eff g) /\
+  Qabs (co_decode cy (td_osc c) (td_sc c) (tg_eff g) - snd cent)
+    <= half_cell (td_osc c) (td_sc c) (tg_eff g)
+       + reg_term (aff_apply (fst (tg_cy g)) (snd cent)) (snd cent) (td_sc c) (tg_eff g).
+Proof. exact co_centroid_within. Qed.
+Print Assumptions c02_centroid_only_centroid_bound.
+
+(* F61: as coded the centroids (original pixels) are compared with instances * eff_scale: at
+   eff_scale 1/2 the row of animal B's centroid holds animal A's keypoints and B's are never returned *)
+Theorem c02_gt_match_mixed_coordinates_refuted :
+  tg_eff (td_geom wit_co) == 1 # 2 /\
+  exists r, In r (co_frame false wit_co [wit_A; wit_B]) /\
+    Qabs (fst (cr_cent r) - 42) <= 2 /\ Qabs (snd (cr_cent r) - 32) <= 2 /\
+    cr_match r = Some 0%nat /\ Forall2 kp_eq (cr_pts r) (an_kps wit_A) /\
+    (forall r', In r' (co_frame false wit_co [wit_A; wit_B]) -> cr_match r' <> Some 1%nat).
+Proof. exact gt_match_mixed_refuted. Qed.
+Print Assumptions c02_gt_match_mixed_coordinates_refuted.
+
+(* the strongest true statement: when the comparison is made in ONE coordinate system — the
+   repaired code (fixed = true, proposed_fixes/C02_F61.diff), or the code as it is with
+   eff_scale = 1 (fixed = false: the `_partial` reading) — the labelled instance whose nearest
+   visible node is strictly nearest to the centroid IN ORIGINAL PIXELS is the one matched, for every
+   eff_scale > 0, any number of instances, missing nodes allowed *)
+Theorem c02_gt_match_nearest_partial : forall fixed eff cent insts j0 kps0 d0,
+  0 < eff -> (fixed = true \/ eff == 1) ->
+  nth_error insts j0 = Some kps0 -> inst_d2 cent kps0 = Some d0 ->
+  (forall k kps w, k <> j0 -> nth_error insts k = Some kps -> inst_d2 cent kps = Some w -> d0 < w) ->
+  gt_match fixed eff cent insts = Some j0.
+Proof. exact gt_match_nearest. Qed.
+Print Assumptions c02_gt_match_nearest_partial.
+
+(* what is returned for a match is the labelled instance itself ((x * eff) / eff, error 0 <= half
+   a cell), NaN for its missing nodes *)
+Theorem c02_gt_return_is_labelled : forall eff kps, 0 < eff -> Forall2 kp_eq (gt_return eff kps) kps.
+Proof. exact gt_return_is_labelled. Qed.
+Print Assumptions c02_gt_return_is_labelled.
+
+Theorem c02_gt_return_invisible_is_nan : forall eff kps k,
+  nth_error kps k = Some None -> nth_error (gt_return eff kps) k = Some None.
+Proof. exact gt_return_invisible. Qed.
+Print Assumptions c02_gt_return_invisible_is_nan.
+
+(* one frame end to end: every row comes from one labelled animal's centroid peak, its centroid
+   entry obeys the bound, and (one coordinate system) the row holds that animal's own keypoints
+   whenever its nearest node is strictly nearer to the returned centroid than any other animal's *)
+Theorem c02_centroid_only_frame : forall fixed c ans r,
+  (0 < td_osc c)%Z -> 0 < td_sc c -> 0 < tg_eff (td_geom c) ->
+  (0 < ncells (snd (tg_cx (td_geom c))) (td_osc c))%Z -> (0 < ncells (snd (tg_cy (td_geom c))) (td_osc c))%Z ->
+  In r (co_frame fixed c ans) ->
+  exists an, In an ans /\
+    (in_band (aff_apply (fst (tg_cx (td_geom c))) (fst (an_cent an))) (td_osc c)
+             (ncells (snd (tg_cx (td_geom c))) (td_osc c)) ->
+     in_band (aff_apply (fst (tg_cy (td_geom c))) (snd (an_cent an))) (td_osc c)
+             (ncells (snd (tg_cy (td_geom c))) (td_osc c)) ->
+     Qabs (fst (cr_cent r) - fst (an_cent an))
+       <= half_cell (td_osc c) (td_sc c) (tg_eff (td_geom c))
+          + reg_term (aff_apply (fst (tg_cx (td_geom c))) (fst (an_cent an))) (fst (an_cent an))
+                     (td_sc c) (tg_eff (td_geom c)) /\
+     Qabs (snd (cr_cent r) - snd (an_cent an))
+       <= half_cell (td_osc c) (td_sc c) (tg_eff (td_geom c))
+          + reg_term (aff_apply (fst (tg_cy (td_geom c))) (snd (an_cent an))) (snd (an_cent an))
+                     (td_sc c) (tg_eff (td_geom c))) /\
+    (forall j0 d0,
+       (fixed = true \/ tg_eff (td_geom c) == 1) ->
+       nth_error (map an_kps ans) j0 = Some (an_kps an) -> inst_d2 (cr_cent r) (an_kps an) = Some d0 ->
+       (forall k kps w, k <> j0 -> nth_error (map an_kps ans) k = Some kps ->
+                        inst_d2 (cr_cent r) kps = Some w -> d0 < w) ->
+       cr_match r = Some j0 /\ Forall2 kp_eq (cr_pts r) (an_kps an)).
+Proof. exact co_frame_row. Qed.
+Print Assumptions c02_centroid_only_frame.
+
+(* every animal whose centroid has a peak has its row; nothing is invented *)
+Theorem c02_centroid_only_frame_complete : forall fixed c ans an pk,
+  In an ans -> td_cent_peak c (td_geom c) (an_cent an) = Some pk ->
+  In (co_row_of fixed c (td_geom c) (map an_kps ans) pk) (co_frame fixed c ans).
+Proof. exact co_frame_complete. Qed.
+Print Assumptions c02_centroid_only_frame_complete.
+
+Theorem c02_centroid_only_frame_count : forall fixed c ans, (length (co_frame fixed c ans) <= length ans)%nat.
+Proof. exact co_frame_count. Qed.
+Print Assumptions c02_centroid_only_frame_count.
+
+(* the network always sees 3 channels when is_rgb and 1 when not, for 1- and 3-channel frames; the
+   decode chains above do not take the channel mode as a parameter *)
+Theorem c02_net_channels : forall is_rgb ch, (ch = 1 \/ ch = 3)%Z ->
+  net_channels is_rgb ch = if is_rgb then 3%Z else 1%Z.
+Proof. exact net_channels_spec. Qed.
+Print Assumptions c02_net_channels.
+
+(* non-vacuity: the repaired comparison on the F61 witness returns both animals, and the
+   hypotheses of c02_gt_match_nearest_partial are met by animal B there *)
+Example ex_centroid_only_fixed :
+  map cr_match (co_frame true wit_co [wit_A; wit_B]) = [Some 1%nat; Some 0%nat].
+Proof. exact gt_match_fixed_witness. Qed.
+
+Example ex_gt_match_nearest_hyps :
+  exists d0, inst_d2 (40, 32) (an_kps wit_B) = Some d0 /\
+    (forall w, inst_d2 (40, 32) (an_kps wit_A) = Some w -> d0 < w) /\
+    gt_match true (1 # 2) (40, 32) [an_kps wit_A; an_kps wit_B] = Some 1%nat /\
+    gt_match false (1 # 2) (40, 32) [an_kps wit_A; an_kps wit_B] = Some 0%nat.
+Proof.
+  eexists. split; [vm_compute; reflexivity|]. split; [|split; vm_compute; reflexivity].
+  intros w H. vm_compute in H. inversion H; subst. vm_compute. reflexivity.
+Qed.
+
+(* ================================================================== integral refinement, exactly
+   (C02/Refine.v on top of C06's exact model refine_at): the refined peak (rough cell + offset d, in
+   cells) goes through the same chain; whatever the map, the error is the rough error + |d| cells *)
+From SV Require Import C06.Peaks C02.Refine.
+
+Theorem c02_refined_decode_bound : forall (c os : Z) (d w x s eff tl : Q),
+  0 < s -> 0 < eff -> (0 < os)%Z ->
+  Qabs (inject_Z c * inject_Z os - (w - tl)) <= inject_Z os / 2 ->
+  Qabs (((inject_Z c + d) * inject_Z os + tl) / s / eff - x)
+    <= half_cell os s eff + Qabs d * inject_Z os / (s * eff) + reg_term w x s eff.
+Proof. exact refined_bound_gen. Qed.
+Print Assumptions c02_refined_decode_bound.
+
+(* an offset toward the content position that does not pass it keeps the property's half cell *)
+Theorem c02_refined_decode_toward_keeps_half_cell : forall (c os : Z) (d w x s eff tl : Q),
+  0 < s -> 0 < eff -> (0 < os)%Z ->
+  Qabs (inject_Z c * inject_Z os - (w - tl)) <= inject_Z os / 2 ->
+  (0 <= d * inject_Z os <= (w - tl) - inject_Z c * inject_Z os \/
+   (w - tl) - inject_Z c * inject_Z os <= d * inject_Z os <= 0) ->
+  Qabs (((inject_Z c + d) * inject_Z os + tl) / s / eff - x) <= half_cell os s eff + reg_term w x s eff.
+Proof. exact refined_bound_toward. Qed.
+Print Assumptions c02_refined_decode_toward_keeps_half_cell.
+
+(* with the exact integral refinement of C06 on any map whose patch has no negative value (outside
+   the selector of F9): the refined peak exists and its decoded position is within half a cell
+   + r = (patch_size - 1) / 2 cells (+ registration) — `_partial`: that the offset of an ideal Gaussian
+   does not pass the true position (so that the plain half cell holds) is proved over R only for
+   the direction (C07 c07_gaussian_moves_toward_centre), the magnitude is observed by the harness *)
+Theorem c02_refined_decode_within_partial : forall m (cx cy r : nat) (osz : Z) (wx wy x y s eff tlx tly : Q),
+  0 < s -> 0 < eff -> (0 < osz)%Z ->
+  selector_F9 m cy cx r = false ->
+  Qabs (inject_Z (Z.of_nat cx) * inject_Z osz - (wx - tlx)) <= inject_Z osz / 2 ->
+  Qabs (inject_Z (Z.of_nat cy) * inject_Z osz - (wy - tly)) <= inject_Z osz / 2 ->
+  exists px py, refine_at m cx cy r = Some (px, py) /\
+    Qabs (td_decode_refined px osz s eff tlx - x)
+      <= half_cell osz s eff + inject_Z (Z.of_nat r) * inject_Z osz / (s * eff) + reg_term wx x s eff /\
+    Qabs (td_decode_refined py osz s eff tly - y)
+      <= half_cell osz s eff + inject_Z (Z.of_nat r) * inject_Z osz / (s * eff) + reg_term wy y s eff.
+Proof. exact refined_decode_within. Qed.
+Print Assumptions c02_refined_decode_within_partial.
+
+Theorem c02_refined_decode_extends_rough : forall c os s eff tl,
+  td_decode_refined (inject_Z c) os s eff tl = td_decode c os s eff tl /\
+  si_decode_refined (inject_Z c) os s eff = si_decode c os s eff.
+Proof. intros. split; reflexivity. Qed.
+Print Assumptions c02_refined_decode_extends_rough.
